@@ -31,6 +31,23 @@ Theorem C15_list_progress_partial : forall i, In i instances -> forall sched,
 Proof. exact progress_partial. Qed.
 Print Assumptions C15_list_progress_partial.
 
+(* parametric: all numbers of nodes and threads, all programs, all schedules *)
+Theorem C15_list_lock_discipline : forall nn progs sched,
+  let s := fst (run step sched (init nn progs, [])) in
+  (forall k u, link_lock s k = Some u -> u < length (thr s) /\ In k (held u (tpc (cur s u)))) /\
+  (forall u, u < length (thr s) ->
+     NoDup (held u (tpc (cur s u))) /\
+     forall k, In k (held u (tpc (cur s u))) -> valid_link s k = true /\ link_lock s k = Some u).
+Proof. exact lock_discipline. Qed.
+Print Assumptions C15_list_lock_discipline.
+
+Theorem C15_list_lock_exclusive_all : forall nn progs sched,
+  let s := fst (run step sched (init nn progs, [])) in
+  forall t u k, t < length (thr s) -> u < length (thr s) ->
+    In k (held t (tpc (cur s t))) -> In k (held u (tpc (cur s u))) -> t = u.
+Proof. exact lock_exclusive. Qed.
+Print Assumptions C15_list_lock_exclusive_all.
+
 Theorem C15_list_lock_exclusive : forall s t u k,
   locks_ok s = true -> t < length (thr s) -> u < length (thr s) ->
   In k (held t (tpc (cur s t))) -> In k (held u (tpc (cur s u))) -> t = u.
